@@ -491,3 +491,77 @@ def modified_manifests(pid, repo, cfg, props):
     files = files_of_property(pid, cfg, props)
     cur = manifest_hashes(repo, files)
     return [("Cargo.toml" if c == "." else c + "/Cargo.toml") for c, h in cur.items() if c in inv and inv[c] != h]
+
+
+# ---------------------------------------------------------------------------------------------------------------------
+# WORKSPACE DEPENDENCIES.  A property about actix-server / actix-tls code also rests on the workspace crates that code is
+# built on (actix-rt, actix-service, actix-utils, local-waker).  Their functions are under contract in OTHER properties'
+# units; this property's check runs only the units its own units assume (lib/unitdeps.py).  So: when a function (or a
+# static / const / item macro) of a dependency crate's inventoried file has changed and none of the units THIS check runs
+# has it under contract, the answer is UNDECIDED — the change may well be judged by another property's check.
+WORKSPACE_DEPS = {
+    "actix-server": ["actix-rt", "actix-service", "actix-utils", "local-waker"],
+    "actix-tls": ["actix-rt", "actix-service", "actix-utils", "local-waker"],
+    "actix-utils": ["local-waker"],
+    "local-channel": ["local-waker"],
+}
+
+
+def changed_in_dependency_crates(pid, repo, cfg, props, run_verus_units, run_kani_units):
+    """run_verus_units / run_kani_units: the units this check runs (own + dependency closure)"""
+    inv = load()
+    allh = inv.get("__all__", {})
+    unc = inv.get("__uncontracted__", {})
+    anchors = []
+    for p in props:
+        if p["id"] == pid:
+            anchors = p["anchors"]["files"]
+    crates = sorted({f.split("/")[0] for f in anchors})
+    deps = sorted({d for c in crates for d in WORKSPACE_DEPS.get(c, [])} - set(crates))
+    if not deps:
+        return []
+    own_files = set(files_of_property(pid, cfg, props))
+    notex, _ = kani_executed()
+    kani_files = {}
+    for k in run_kani_units:
+        j = json.load(open(os.path.join(ROOT, "kani", k, "unit.json")))
+        for inj in j.get("inject", []):
+            kani_files.setdefault(inj["file"], set()).add(k)
+        for c in j.get("contracts", []):
+            kani_files.setdefault(c["file"], set()).add(k)
+    out = []
+    for f in sorted(allh):
+        if f.split("/")[0] not in deps or f in own_files:
+            continue
+        path = os.path.join(repo, f)
+        if not os.path.exists(path):
+            continue
+        try:
+            fns, _ = all_fns(path)
+        except Exception:
+            continue
+        changed = [l for l, (sha, _) in fns.items() if l in allh[f] and allh[f][l] != sha and not is_exempt(path, l)]
+        if changed:
+            covered = set()
+            for u in run_verus_units:
+                covered |= _unit_labels(u, repo, f)
+            for l in changed:
+                if l in covered:
+                    continue
+                if f in kani_files and l not in notex.get(f, set()):
+                    continue
+                out.append(f"{f}: {l}")
+        vals = None
+        for label, sha in unc.get(f, {}).items():
+            if label.startswith("[value] "):
+                if vals is None:
+                    try: vals = value_items(path)
+                    except Exception: vals = {}
+                if vals.get(label[len("[value] "):]) != sha:
+                    out.append(f"{f}: {label[len('[value] '):]}")
+    man = inv.get("__manifests__", {})
+    cur = manifest_hashes(repo, [d + "/x" for d in deps])
+    for d in deps:
+        if d in man and d in cur and man[d] != cur[d]:
+            out.append(f"{d}/Cargo.toml")
+    return out
